@@ -67,7 +67,7 @@ def cases(rng, tier):
                 out.append("NAME %s %x" % (h, off))
     out += structured(rng, 3000 if tier == "quick" else 30000)
     # valid deep chains: pure pointer chains and label+pointer nesting (what a compressor emits for nested names)
-    for depth in (1, 2, 9, 10, 11, 12, 20, 64, 126):
+    for depth in (1, 2, 9, 10, 11, 12, 20, 64, 126, 127, 128, 253, 254, 255, 256, 257, 300, 512, 1000):
         buf = bytearray(b"\x00")
         last = 0
         for _ in range(depth):
